@@ -4,6 +4,8 @@
 PATCH=$1; shift
 cd /repo && git apply "$PATCH" || { echo "patch does not apply to /repo"; exit 2; }
 cd /verif
+rm -rf /verif/build/evidence_backup; cp -r /verif/evidence /verif/build/evidence_backup
 for p in "$@"; do ./check $p --tier quick 2>&1 | grep -E "VIOLATION|KNOWN|-> exit" ; done
 git -C /repo checkout -- .
+rm -rf /verif/evidence; cp -r /verif/build/evidence_backup /verif/evidence   # evidence must describe the unchanged tree
 git -C /repo status --short | head -3
